@@ -56,7 +56,7 @@ class Discrete(AbstractSpace[Int[Array, ""], Bool[Array, " n"]]):
         if ~jnp.array_equal(x, jnp.floor(x)):
             return jnp.array(False)
 
-        return 0 <= x < self.n
+        return (0 <= x) & (x < jnp.asarray(self.n, dtype=int))
 
     def __eq__(self, other: object) -> bool:
         if not isinstance(other, Discrete):
